@@ -3,40 +3,11 @@
    every entry point of the implementation; TLC evaluates the byte-level machine on
    the recorded bytes and checks verdicts (C02), denoted values (C03), error
    positions (C20) and the absence of panics (C01).                            *)
-EXTENDS JsonText, Errors, Json, IOUtils
+EXTENDS Conform, Json, IOUtils
 Rec == ndJsonDeserialize(IOEnv.TRACE)
 CONSTANT Checks      \* subset of {"verdict", "value", "errpos", "panic"}: which clauses this run decides
 VARIABLE l
 vars == <<l>>
-
-Has(r, f) == f \in DOMAIN r
-
-ZeroOr(ds) == IF ds = <<>> THEN <<0>> ELSE ds
-NumMatches(lit, d) ==
-  IF d.k = "raw" THEN d.raw = lit
-  ELSE /\ d.k = Classify(lit)
-       /\ d.k \in {"u64", "i64"} => (d.d = ZeroOr(StripZ(Scan(lit).id)) /\ d.neg = Scan(lit).neg)
-       /\ d.k = "f64" => FloatMatches(lit, d)
-
-RECURSIVE ValMatches(_, _)
-ValMatches(v, d) ==
-  /\ d.t = v.t
-  /\ CASE v.t = "null" -> TRUE
-       [] v.t = "bool" -> d.b = v.b
-       [] v.t = "str"  -> d.s = v.s
-       [] v.t = "num"  -> NumMatches(v.lit, d)
-       [] v.t = "arr"  -> Len(d.e) = Len(v.e) /\ \A i \in 1..Len(v.e) : ValMatches(v.e[i], d.e[i])
-       [] v.t = "obj"  -> Len(d.m) = Len(v.m)
-                          /\ \A i \in 1..Len(v.m) : d.m[i][1] = v.m[i][1].s /\ ValMatches(v.m[i][2], d.m[i][2])
-       [] OTHER -> FALSE
-
-\* error position rules (C20): offset within the input actually given to the entry point,
-\* line/column exactly those of the offset, displayable, never a lookup category
-ErrOk(full, e) ==
-  /\ e.off <= Len(full)
-  /\ e.disp_ok
-  /\ ~e.nf
-  /\ <<e.line, e.col>> = LineCol(full, e.off)
 
 Full(r, x) == (IF Has(x, "pre") THEN x.pre ELSE <<>>) \o r.b \o (IF Has(x, "post") THEN x.post ELSE <<>>)
 
